@@ -1,12 +1,50 @@
 (* Property C07 — exploration getters and lengths report exactly what is stored.
-   The getters of DB.v follow database.py (index-served when the index is valid, storage scan
-   otherwise) and Index.v follows the index's own getters. *)
+   The getters of DB.v follow database.py (answered by the index when it is valid, by a scan of
+   storage otherwise) and Index.v follows the index's own getters.  Each getter of the model
+   equals its one-line specification in Spec.v on the stored points, restricted to the
+   measurement when one is given, in the documented order (sorted keys; values sorted with
+   None last; field values and timestamps in insertion order) - on BOTH paths, in every state
+   that satisfies the invariant (every reachable state: Prop_C06), for every measurement
+   filter (present, absent, none, and "" which the code treats as none) and every tag_keys
+   selection.  The index-level theorems hold for every index that describes the points. *)
 From Coq Require Import List ZArith NArith Bool.
 From TF Require Import Base Query Index DB Spec proofs.IndexDefs proofs.RepP proofs.DBReadP proofs.DBRemoveP
-     proofs.DBStepP proofs.DBRunP proofs.DBSpecP.
+     proofs.DBStepP proofs.DBRunP proofs.DBSpecP proofs.GetterP.
 Import ListNotations.
 
 Theorem C07_len_exact : forall s, Inv s -> db_len s = (s, ONat (length (st_rows s))).
 Proof. exact db_len_spec. Qed.
+Theorem C07_measurements : forall s, Inv s -> db_get_measurements s = (read_prelude s, OStrs (spec_measurements (st_rows s))).
+Proof. exact db_get_measurements_spec. Qed.
+Theorem C07_tag_keys : forall s m, Inv s -> db_get_tag_keys s m = (read_prelude s, OStrs (spec_tag_keys m (st_rows s))).
+Proof. exact db_get_tag_keys_spec. Qed.
+Theorem C07_tag_values : forall s ks m, Inv s -> db_get_tag_values s ks m = (read_prelude s, OTagVals (spec_tag_values ks m (st_rows s))).
+Proof. exact db_get_tag_values_spec. Qed.
+Theorem C07_field_keys : forall s m, Inv s -> db_get_field_keys s m = (read_prelude s, OStrs (spec_field_keys m (st_rows s))).
+Proof. exact db_get_field_keys_spec. Qed.
+Theorem C07_field_values : forall s k m, Inv s -> db_get_field_values s k m = (read_prelude s, ONums (spec_field_values k m (st_rows s))).
+Proof. exact db_get_field_values_spec. Qed.
+Theorem C07_timestamps : forall s m, Inv s -> db_get_timestamps s m = (read_prelude s, OTimes (spec_timestamps m (st_rows s))).
+Proof. exact db_get_timestamps_spec. Qed.
+Theorem C07_all : forall s srt, db_all s srt = (read_prelude s, OPoints (spec_all srt (st_rows s))).
+Proof. exact db_all_spec. Qed.
+Theorem C07_handle_len : forall E C norm s name, Inv s ->
+  handle_step E C norm s name HLen = (s, ONat (length (filter (fun p => str_eqb (p_meas p) name) (st_rows s)))).
+Proof. exact handle_len_spec. Qed.
+(* the index alone *)
+Theorem C07_index_tag_values : forall i pts ks m, Rep i pts -> wf_points pts -> ix_get_tag_values i ks m = scan_tag_values ks (in_meas m pts).
+Proof. exact ix_get_tag_values_spec. Qed.
+Theorem C07_index_timestamps : forall i pts m, Rep i pts -> ix_get_timestamps i m = map p_time (in_meas m pts).
+Proof. exact ix_get_timestamps_spec. Qed.
 
 Print Assumptions C07_len_exact.
+Print Assumptions C07_measurements.
+Print Assumptions C07_tag_keys.
+Print Assumptions C07_tag_values.
+Print Assumptions C07_field_keys.
+Print Assumptions C07_field_values.
+Print Assumptions C07_timestamps.
+Print Assumptions C07_all.
+Print Assumptions C07_handle_len.
+Print Assumptions C07_index_tag_values.
+Print Assumptions C07_index_timestamps.
